@@ -169,7 +169,7 @@ def run(ctx):
         ctx.notes.append("%d free-running runs did not finish within the time limit" % len(hung))
     # (a) implementation layer: drift only
     slot_sid = [s for s in traces if scheds[s]["mode"] == "slots"][0]
-    sl = [{"e": "Slots", "stripes": e["stripes"], "slots": e["slots"]} for e in traces[slot_sid]]
+    sl = [{"e": "Slots", "stripes": e["stripes"], "slots": e["slots"]} for e in traces[slot_sid] if e["e"] == "Slots"]
     drift = ctx.validate_traces("LatchSlotsTrace", "LatchSlotsTrace.cfg", [sl])
     for (_, line, pev, want) in drift[:5]:
         print("DRIFT family=Latch at=Slots keys=%s slots=%s expected=%s" % (traces[slot_sid][line]["keys"], pev["slots"], want), flush=True)
